@@ -102,3 +102,57 @@ Section Purge.
     Forall (fun b => bsz b <= cap) (pack true keep_repaired l [] 0 []).
   Proof. intros Hfit. apply pack_blocks; auto; simpl; try lia; try apply N.le_0_l. Qed.
 End Purge.
+
+(* ---- the purge pass over a whole table and the deleted-series table (finding C13-purge-forgets-ids-of-skipped-parts).
+   A part that is being merged is left alone by the pass (RemoveItemsByDelTsidsFromParts skips isInMerge parts); afterwards
+   IndexBuilder.DropSeries discards the flushed part of the deleted-series table (RemoveDeletedPart).
+   _current: it discards it whenever the pass returned no error - also when parts were skipped: their items of dropped series are
+   then no longer hidden after the next restart.  _repaired: it keeps the ids unless every part was filtered. *)
+Section PurgePass.
+  Definition tpart := (bool * list N)%type.            (* being merged?, the series ids its items carry *)
+  Record ptable := mkPT { pt_parts : list tpart; pt_deleted : list N }.   (* index parts, ids in the deleted-series table on disk *)
+  Definition nmem (x : N) (l : list N) : bool := existsb (N.eqb x) l.
+
+  Definition purge_pass (keep_when_skipped : bool) (t : ptable) : ptable :=
+    let del := pt_deleted t in
+    let parts' := map (fun p : tpart => if fst p then p else (false, filter (fun i => negb (nmem i del)) (snd p))) (pt_parts t) in
+    let skipped := existsb (fun p : tpart => fst p) (pt_parts t) in
+    mkPT parts' (if keep_when_skipped && skipped then del else []).
+
+  (* what a search returns after a restart: the ids of the parts that the deleted-series table does not hide *)
+  Definition visible_ids (t : ptable) : list N := filter (fun i => negb (nmem i (pt_deleted t))) (flat_map snd (pt_parts t)).
+
+  Lemma nmem_in x l : nmem x l = true <-> In x l.
+  Proof.
+    unfold nmem. rewrite existsb_exists. split.
+    - intros (y & Hy & E). apply N.eqb_eq in E. subst. exact Hy.
+    - intros Hin. exists x. split; auto. apply N.eqb_refl.
+  Qed.
+
+  (* REPAIRED: the pass never makes a dropped id visible, whatever parts are being merged *)
+  Theorem purge_pass_hides t id : In id (pt_deleted t) -> ~ In id (visible_ids (purge_pass true t)).
+  Proof.
+    intros Hdel Hvis. unfold visible_ids, purge_pass in Hvis. simpl in Hvis.
+    apply filter_In in Hvis. destruct Hvis as [Hin Hn]. apply negb_true_iff in Hn.
+    destruct (existsb (fun p : tpart => fst p) (pt_parts t)) eqn:Esk; simpl in Hn.
+    - assert (nmem id (pt_deleted t) = true) by (apply nmem_in; exact Hdel). congruence.
+    - (* no part was skipped: every part was filtered *)
+      apply in_flat_map in Hin. destruct Hin as (p' & Hp' & Hid). apply in_map_iff in Hp'. destruct Hp' as (p & <- & Hp).
+      assert (fst p = false).
+      { destruct (fst p) eqn:E; auto. assert (existsb (fun q : tpart => fst q) (pt_parts t) = true) by (apply existsb_exists; exists p; auto). congruence. }
+      rewrite H in Hid. simpl in Hid. apply filter_In in Hid. destruct Hid as [_ Hf]. apply negb_true_iff in Hf.
+      assert (nmem id (pt_deleted t) = true) by (apply nmem_in; exact Hdel). congruence.
+  Qed.
+  (* ... and it changes nothing else: an id that is not dropped stays visible *)
+  Theorem purge_pass_keeps_live k t id : ~ In id (pt_deleted t) -> In id (flat_map snd (pt_parts t)) -> In id (visible_ids (purge_pass k t)).
+  Proof.
+    intros Hn Hin. assert (Hnm : nmem id (pt_deleted t) = false).
+    { destruct (nmem id (pt_deleted t)) eqn:E; auto. apply nmem_in in E. contradiction. }
+    unfold visible_ids, purge_pass. simpl. apply filter_In. split.
+    - apply in_flat_map in Hin. destruct Hin as (p & Hp & Hid). apply in_flat_map.
+      exists (if fst p then p else (false, filter (fun i => negb (nmem i (pt_deleted t))) (snd p))). split.
+      + apply in_map_iff. exists p. auto.
+      + destruct (fst p); simpl; auto. apply filter_In. split; auto. rewrite Hnm. reflexivity.
+    - destruct (k && existsb (fun p : tpart => fst p) (pt_parts t)); simpl; auto. rewrite Hnm. reflexivity.
+  Qed.
+End PurgePass.
